@@ -328,6 +328,13 @@ pub fn data_body(kind: char, n: u64) -> Vec<Op> {
             b.push(Op::Insert { slot: 0, k: Val::U(10), v: Val::B(payload(100 + n, 180)) });
             b.push(Op::Insert { slot: 1, k: Val::U(10), v: Val::B(payload(100 + n, 180)) });
         }
+        'M' => {
+            // only meaningful on seeds that hold the table "mx" (it is created empty otherwise)
+            b = vec![Op::Open { slot: 0, name: "t".into(), spec: TU }, Op::Open { slot: 1, name: "mx".into(), spec: MXB }];
+            b.push(Op::MRemove { slot: 1, k: mx_key(), v: mx_big() });
+            b.push(Op::Insert { slot: 0, k: Val::U(1000 + n), v: Val::B(payload(n, 40)) });
+            b.push(Op::Insert { slot: 0, k: Val::U(3500 + n), v: Val::B(payload(n, 700)) });
+        }
         'D' => {
             b.push(Op::Remove { slot: 0, k: Val::U(20) });
             b.push(Op::Remove { slot: 1, k: Val::U(20) });
@@ -337,6 +344,33 @@ pub fn data_body(kind: char, n: u64) -> Vec<Op> {
         _ => panic!("harness: unknown data step"),
     }
     b
+}
+
+pub const MXB: Spec = mm(T::Bytes, T::Bytes);
+
+fn mx_key() -> Val {
+    Val::B(b"k1".to_vec())
+}
+
+fn mx_big() -> Val {
+    let mut v = payload(777, 600);
+    v[0] = 0xFF;
+    Val::B(v)
+}
+
+/// a multimap key whose value set is a subtree of two leaves of very different kinds: a few small
+/// values in one, a single value larger than a page (sorting last) alone in the other; removing
+/// the big one collapses the subtree onto the untouched, committed small leaf
+pub fn mx_setup_txn() -> Op {
+    let mut b = vec![Op::Open { slot: 0, name: "mx".into(), spec: MXB }];
+    for i in 0..4u64 {
+        let mut v = payload(i, 40);
+        v[0] = i as u8 + 1;
+        b.push(Op::MInsert { slot: 0, k: mx_key(), v: Val::B(v) });
+    }
+    b.push(Op::MInsert { slot: 0, k: mx_key(), v: mx_big() });
+    b.push(Op::MInsert { slot: 0, k: Val::B(b"k2".to_vec()), v: Val::B(payload(9, 40)) });
+    txn(CommitMode::OnePhase, b)
 }
 
 pub fn c01_setup(full: bool, psave: bool, pending_nondurable: bool) -> Vec<Op> {
@@ -1145,6 +1179,12 @@ pub fn txn_seeds(cfgs: &[Cfg], with_psave: bool) -> Vec<Seed> {
         }
         v.push(Seed { name: format!("frag{}/p{}c{}r{:?}", if with_psave { "+psave" } else { "" }, cfg.page_size, cfg.cache, cfg.region_size), cfg: *cfg, setup: s, pre: vec![] });
     }
+    // one seed (first configuration) with the two-leaf multimap subtree of mx_setup_txn()
+    if let Some(cfg) = cfgs.first() {
+        let mut s = c01_setup(false, false, false);
+        s.push(mx_setup_txn());
+        v.push(Seed { name: format!("mixed-mm/p{}c{}r{:?}", cfg.page_size, cfg.cache, cfg.region_size), cfg: *cfg, setup: s, pre: vec![] });
+    }
     v
 }
 
@@ -1172,7 +1212,7 @@ fn end_cleanup(it: &mut Interp) -> Result<(), String> {
 pub fn c06_profiles(quick: bool) -> Vec<(Profile, u64)> {
     let f = TxnFlavor {
         modes: vec![CommitMode::OnePhase, CommitMode::NonDurable, CommitMode::QuickRepair],
-        data: vec!['S', 'B', 'D'],
+        data: vec!['S', 'B', 'D', 'M'],
         aborts: true,
         readers: true,
         owned: false,
@@ -1251,7 +1291,7 @@ pub fn c07_profiles(quick: bool) -> Vec<(Profile, u64)> {
 pub fn c02_profiles(quick: bool) -> Vec<(Profile, u64)> {
     let f = TxnFlavor {
         modes: vec![CommitMode::OnePhase, CommitMode::NonDurable, CommitMode::TwoPhase],
-        data: vec!['S', 'B', 'D', 'O'],
+        data: vec!['S', 'B', 'D', 'O', 'M'],
         aborts: true,
         readers: true,
         owned: true,
